@@ -80,6 +80,8 @@ package cmd
 // the references are what the generators import (Python) and what dependencies-first flattening walks.
 //@   ensures a_package_parsed_before_is_returned_as_it_is: old(p.Namespace in alreadyParsed) ==> result1 == nil && result0 == old(alreadyParsed[p.Namespace]) && !called(dsl.ParsePackageContents)
 //@   iteration 0: every_import_becomes_a_reference: calls(parsePackageNamespaces) == old(calls(parsePackageNamespaces)) + 1 && lastArg(parsePackageNamespaces, 0) == imp.Package && lastArg(parsePackageNamespaces, 1) == alreadyParsed
+//@   ensures only_namespaces_created_by_the_call_get_references: forall n *dsl.Namespace :: !fresh(n) ==> len(n.References) == old(len(n.References))
+//@   invariant 0: forall n *dsl.Namespace :: !fresh(n) ==> len(n.References) == old(len(n.References))
 //@   iteration 0: the_reference_is_appended: len(namespace.References) == old(len(namespace.References)) + 1 && namespace.References[len(namespace.References) - 1] == lastResult(parsePackageNamespaces).r0
 
 // Dependencies first: the namespaces reachable from ns that are not listed yet are returned as the lists of its
